@@ -55,10 +55,20 @@ def side_bar(l):
     # a namespace whose name is not an identifier
     return {"title": f"side.title[{l}]", "entry": f"side.entry[{l}] {{{{ n }}}}"}
 
+def partial(l):
+    # keys some locales leave out: `only_default` exists in the default locale only, `from_parent` in en and fr
+    # (fr-CA inherits fr in the configuration, every other locale falls back to the default locale)
+    d = {"here": f"here[{l}]"}
+    if l in ("en", "fr"):
+        d["from_parent"] = f"from.parent[{l}]"
+    if l == "en":
+        d["only_default"] = "only.default[en]"
+    return d
+
 for l in LOCALES:
     d = os.path.join(HERE, "locales", l)
     os.makedirs(d, exist_ok=True)
-    for ns, f in [("common", common), ("home", home), ("nasty", nasty), ("bare", bare), ("side-bar", side_bar)]:
+    for ns, f in [("common", common), ("home", home), ("nasty", nasty), ("bare", bare), ("side-bar", side_bar), ("partial", partial)]:
         with open(os.path.join(d, f"{ns}.json"), "w", encoding="utf-8") as fh:
             json.dump(f(l), fh, indent=1, ensure_ascii=False)
             fh.write("\n")
